@@ -57,7 +57,7 @@ theorem disjoint_sound {a b : List ℕ} (h : disjoint a b = true) : Disjoint {l 
   intro x hx hxb
   simp only [disjoint, List.all_eq_true] at h
   have := h x hx
-  simp only [Set.mem_setOf_eq] at hxb
+  simp only [Set.mem_ofPred_eq] at hxb
   simp [hxb] at this
 
 /-- semantic execution of a recorded graph: task `i` of the graph runs its read/write function,
